@@ -10,7 +10,7 @@
 EXTENDS Aead, Json
 
 LenClasses == {[full |-> 0, extra |-> e] : e \in {0, 1}} \cup {[full |-> f, extra |-> e] : f \in 1..3, e \in {-1, 0, 1}}
-LenOf(lc) == IF lc.full = 0 THEN lc.extra ELSE Pss0 + (lc.full - 1) * Pss + lc.extra
+LenOf(lc) == ClassLen(lc.full, lc.extra)
 
 Catalogue(L) ==
   {NoTamper}
@@ -19,7 +19,10 @@ Catalogue(L) ==
   \cup {T("flip", u, -1, -1, "first") : u \in ({HeaderUnits[i] : i \in 1..Len(HeaderUnits)} \ {"tsalt2", "tnp2"})
                                               \ (IF NumSeg(L) > 2 THEN {"jseg"} ELSE {})}
   \cup {T("flip", u, j, -1, wh) : u \in {"body", "tag"}, j \in 0..(NumSeg(L) - 1), wh \in {"first", "last"}}
-  \cup {T("trunc", u, -1, -1, "-") : u \in {"zero", "len", "afterlen", "json", "afterhdr", "tinkhdr", "aftertink", "lasttag"}}
+  \cup {T("trunc", u, -1, -1, "-") : u \in {"zero", "len", "afterlen", "json", "afterhdr", "tinkhdr", "aftertink", "lasttag", "tagm1"}}
+  \* every proper truncation is an error - also one that leaves exactly the stored size of a shorter valid part
+  \* (header + tink header + one tag = the size of an empty part, + 1 byte, + a full first segment, ...)
+  \cup {T("trunc", "aslen", lc.full, lc.extra, "-") : lc \in LenClasses}
   \cup {T("trunc", u, j, -1, "-") : u \in {"segstart", "segstart1", "segmid"}, j \in 0..(NumSeg(L) - 1)}
   \cup {T("extend", u, -1, -1, "-") : u \in {"one", "tag", "css"}}
   \cup {T("swap", "-", a, b, "-") : a, b \in 0..(NumSeg(L) - 1)}
